@@ -34,6 +34,62 @@ def _prefix_unbound(CE, cond, branch):
     return positive and "is_none" not in text
 
 
+def rule_global_components_only(ck, F, rule="R3"):
+    """A QName reference denotes a *global* component: a child of a `schema` element. The lookup that searches the XML tree for a
+    component that was not read yet has to test exactly that (`candidate.parent()` is a schema); a test over the ancestors (or no
+    test) lets a local element of the same name, nested in some type, stand in for the global component."""
+    from engine.rulekit import hir as Hh_
+    g = scans.call_graph(F.lib)
+    live = scans.api_reachable(F.lib)
+    lookups = [p_ for p_, _n, _s in A.component_lookups(F)]
+    tree_fns = []
+    for p_ in lookups:
+        for q in [p_] + A.local_callees(F, p_, depth=2):
+            b = F.lib.body(q)
+            if b is None or not b.get("mir") or q in tree_fns:
+                continue
+            if any((M.Body.callee_decl(t) or "").endswith(("::descendants", "::children")) for _, t in M.Body(b).calls()) or q not in lookups:
+                tree_fns.append(q)
+    evidence = []
+    for q in tree_fns:
+        b = F.lib.body(q)
+        if b is None or b.get("hir") is None:
+            continue
+        nb = Hh_.norm_body(b)
+        lets = {}
+        for x in Hh_.walk(nb["value"]):
+            if x.get("k") == "Let" and x.get("init") is not None:
+                for i_, _nm in Hh_.pat_bindings(x["pat"]):
+                    lets[i_] = Hh_.describe(x["init"])
+
+        def has_schema_lit(n):
+            return any(y.get("k") == "Lit" and y.get("lit") == "str" and y.get("v") == "schema" for y in Hh_.exprs(n))
+        for x in Hh_.exprs(nb["value"]):
+            if x.get("k") == "MethodCall" and any(Hh_.strip(a).get("k") == "Closure" and has_schema_lit(Hh_.strip(a)["body"]["value"]) for a in x["args"]):
+                evidence.append((Hh_.sp(x), Hh_.describe(x["recv"])))
+            elif x.get("k") == "Binary" and x.get("op") in ("Eq", "Ne") and has_schema_lit(x) and not any(y.get("k") == "Closure" for y in Hh_.exprs(x)):
+                other = [y for y in Hh_.exprs(x) if y.get("k") == "Path" and y.get("res") == "local"]
+                desc = " ".join(lets.get(y.get("id"), "<param>" if y.get("id") not in lets else "") for y in other)
+                evidence.append((Hh_.sp(x), desc))
+    # (a closure's own parameter test is recorded at the adaptor call that takes the closure)
+    evidence = [(sp_, d_) for sp_, d_ in evidence if d_.strip() and d_.strip() != "<param>"] or evidence
+    if not tree_fns:
+        ck.undecided(rule, "global-components-only", "-", "no lookup that searches the XML tree was found")
+        return
+    bad = [(sp_, d_) for sp_, d_ in evidence if any(w in d_ for w in ("ancestors(", "descendants(", "children(")) and "parent()" not in d_.split("ancestors(")[0][-20:]]
+    good = [(sp_, d_) for sp_, d_ in evidence if "parent()" in d_ and not any(w in d_ for w in ("ancestors(", "descendants("))]
+    if bad:
+        ck.violation(rule, "global-components-only", bad[0][0],
+                     f"the search for a component in the XML tree accepts a candidate when some ancestor (`{bad[0][1][:80]}`) is a schema, not when its parent is: "
+                     f"a local element or attribute nested in a type can be taken for the global component of the same name")
+    elif good:
+        ck.ok(rule, "global-components-only", good[0][0], "the search in the XML tree accepts only children of a `schema` element (global components)")
+    else:
+        ck.violation(rule, "global-components-only", (F.lib.body(tree_fns[0]) or {}).get("span", "-"),
+                     "the search for a component in the XML tree does not test that the candidate is a child of a `schema` element: local declarations can be "
+                     "taken for global components")
+
+
 def run(ck, F):
     ck.explanation = (
         "(R1) the QName split is a pure expression: its provenance normal form is evaluated by the finite-domain evaluator on the "
@@ -316,6 +372,7 @@ def run(ck, F):
             ck.violation("R4", f"{short}:kind-ignored", fb["span"],
                          f"{fname} selects by name (and namespace) only: a reference can bind to a component of another kind that carries the same name", fn=short)
     ck.floor("R3", "by-name selection functions", n_sel, 3)
+    rule_global_components_only(ck, F)
     # builtin decision: wherever as_rust_type consults the builtin table (the match, the constant table, a helper holding either),
     # it does so only on the paths on which the prefix of the reference was found not to name a namespace of the document
     b = F.lib.body(C02.AS_RUST_TYPE)
